@@ -21,7 +21,7 @@ Reply: `<res>/<appended so far>` per op, then ` | ` and the appended entries `pl
   res: `-` · `some`/`none` (open) · `R<v>`/`Rn`/`P` (wait) · `t`/`f` (gc)
 
 Request 2 (T-trace): `trace <nslots> | <obs> <obs> …`  — evaluates the specification predicate
-  `Spec.accept` (`Model/KeepAliveSpec.lean`) on an observed history.
+  `Spec.acceptStrong` (= `Spec.accept` plus the strengthened force-flush clause, `Model/KeepAliveSpec.lean`) on an observed history.
 Reply: `accept` or `reject:<index of the first rejected observation>`.
 -/
 namespace Driver.KeepAlive
@@ -174,7 +174,7 @@ def handleOps (slotsS : String) (toks : List String) : String :=
 def handleTrace (nslotsS : String) (toks : List String) : String :=
   match nslotsS.toNat?, toks.mapM Spec.parseObs with
   | some n, some obs =>
-    match Spec.firstReject (Spec.start n) obs 0 with
+    match Spec.firstRejectStrong (Spec.start n) {} obs 0 with
     | none => "accept"
     | some i => s!"reject:{i}"
   | _, _ => "bad-op"
